@@ -292,6 +292,10 @@ class MemoryFileSystem(FileSystem):
     if 'a' in mode:
       # Appending starts at the end of the existing content.
       file.seek(0, 2)
+    elif 'w' not in mode:
+      # Reading starts at the beginning, also when an earlier reader of the
+      # same (shared) in-memory file was never closed.
+      file.seek(0)
     return file
 
   def chmod(self, path: Union[str, os.PathLike[str]], mode: int) -> None:
